@@ -184,9 +184,15 @@ def DoLog (fsm):
     fsm.memory = [screen]
     # (a character that the file's encoding cannot represent, e.g. a lone
     # surrogate, is written as an escape instead of raising)
-    fout = open ('log', 'a', errors='backslashreplace')
-    fout.write (fsm.input_symbol + ',' + fsm.current_state + '\n')
-    fout.close()
+    try:
+        fout = open ('log', 'a', errors='backslashreplace')
+        fout.write (fsm.input_symbol + ',' + fsm.current_state + '\n')
+        fout.close()
+    except (IOError, OSError):
+        # The note is a debugging aid. A current directory that cannot be
+        # written to (or a full disk) must not stop the terminal, nor leave
+        # its parser in the middle of the sequence.
+        pass
 
 class term (screen.screen):
 
